@@ -5,6 +5,7 @@
 //!   prattx tables                      -> one JSON object
 //!   prattx expr   < cases {dialect, sql}        -> {tokens, result}
 //!   prattx setop  < cases {dialect, sql}        -> {result}
+//!   prattx qtables / prattx query                 -> the query core of C01 (see below)
 use serde_json::{json, Value};
 use sqlparser::ast::*;
 use sqlparser::dialect::{Dialect, Precedence};
@@ -372,6 +373,245 @@ fn run_setop(d: &dyn Dialect, sql: &str) -> Value {
     }
 }
 
+
+// ------------------------------------------------------------------ query core (C01)
+//
+//   prattx query   < cases {dialect, sql}  -> {tokens, tkind, result}
+//   prattx qtables                         -> reserved-word lists + per-dialect flags / probes
+//
+// `query` runs the tokenizer and `Parser::parse_query` and dumps the `Query` tree restricted to the
+// fragment of coq/theories/QueryCore.v ("out_of_fragment" when any other field is set), the text
+// `to_string()` prints for it, that text's tokens and its re-parse.
+
+/// per token: "num" for numeric literals, "qid" for quoted identifiers, "" otherwise
+/// (the C04 token view shows both as atoms)
+fn tok_kind(t: &Token) -> &'static str {
+    match t {
+        Token::Number(_, _) => "num",
+        Token::Word(w) if w.quote_style.is_some() => "qid",
+        _ => "",
+    }
+}
+
+fn q_ident(i: &Ident) -> Value {
+    json!({"v": i.value, "q": i.quote_style.map(|c| c.to_string())})
+}
+
+fn q_alias(a: &Option<TableAlias>) -> Option<Value> {
+    match a {
+        None => Some(Value::Null),
+        Some(ta) if ta.columns.is_empty() => Some(q_ident(&ta.name)),
+        Some(_) => None,
+    }
+}
+
+fn q_tref(t: &TableWithJoins) -> Option<Value> {
+    if !t.joins.is_empty() {
+        return None;
+    }
+    match &t.relation {
+        TableFactor::Table { name, alias, args: None, with_hints, version: None, partitions, with_ordinality: false }
+            if with_hints.is_empty() && partitions.is_empty() && name.0.len() == 1 =>
+        {
+            Some(json!({"k": "table", "name": q_ident(&name.0[0]), "alias": q_alias(alias)?}))
+        }
+        TableFactor::Derived { lateral: false, subquery, alias } => {
+            Some(json!({"k": "derived", "q": q_query(subquery)?, "alias": q_alias(alias)?}))
+        }
+        _ => None,
+    }
+}
+
+fn q_item(i: &SelectItem) -> Option<Value> {
+    match i {
+        SelectItem::Wildcard(o) if *o == WildcardAdditionalOptions::default() => Some(json!({"k": "wild"})),
+        SelectItem::UnnamedExpr(e) => Some(json!({"k": "expr", "e": tree(e)})),
+        SelectItem::ExprWithAlias { expr, alias } => Some(json!({"k": "alias", "e": tree(expr), "a": q_ident(alias)})),
+        _ => None,
+    }
+}
+
+fn q_select(s: &Select) -> Option<Value> {
+    let distinct = match &s.distinct {
+        None => false,
+        Some(Distinct::Distinct) => true,
+        Some(_) => return None,
+    };
+    if s.top.is_some() || s.into.is_some() || !s.lateral_views.is_empty() || s.prewhere.is_some()
+        || !s.cluster_by.is_empty() || !s.distribute_by.is_empty() || !s.sort_by.is_empty()
+        || !s.named_window.is_empty() || s.qualify.is_some() || s.value_table_mode.is_some()
+        || s.connect_by.is_some()
+    {
+        return None;
+    }
+    let group_by = match &s.group_by {
+        GroupByExpr::Expressions(l, m) if m.is_empty() => l.iter().map(tree).collect::<Vec<_>>(),
+        _ => return None,
+    };
+    let items = s.projection.iter().map(q_item).collect::<Option<Vec<_>>>()?;
+    let from = s.from.iter().map(q_tref).collect::<Option<Vec<_>>>()?;
+    Some(json!({"k": "select", "distinct": distinct, "items": items, "from": from,
+        "where": s.selection.as_ref().map(tree), "group_by": group_by, "having": s.having.as_ref().map(tree)}))
+}
+
+fn q_setexpr(b: &SetExpr) -> Option<Value> {
+    match b {
+        SetExpr::Select(s) => q_select(s),
+        SetExpr::Query(q) => Some(json!({"k": "nested", "q": q_query(q)?})),
+        SetExpr::SetOperation { op, set_quantifier, left, right } => {
+            let q = match set_quantifier {
+                SetQuantifier::None => "None",
+                SetQuantifier::All => "All",
+                SetQuantifier::Distinct => "Distinct",
+                _ => return None,
+            };
+            Some(json!({"k": "setop", "op": format!("{:?}", op), "q": q, "l": q_setexpr(left)?, "r": q_setexpr(right)?}))
+        }
+        _ => None,
+    }
+}
+
+fn q_query(q: &Query) -> Option<Value> {
+    if q.with.is_some() || !q.limit_by.is_empty() || q.fetch.is_some() || !q.locks.is_empty()
+        || q.for_clause.is_some() || q.settings.is_some() || q.format_clause.is_some()
+    {
+        return None;
+    }
+    let order_by = match &q.order_by {
+        None => vec![],
+        Some(ob) => {
+            if ob.interpolate.is_some() || ob.exprs.is_empty() {
+                return None;
+            }
+            let mut v = vec![];
+            for o in &ob.exprs {
+                if o.nulls_first.is_some() || o.with_fill.is_some() {
+                    return None;
+                }
+                v.push(json!({"e": tree(&o.expr), "asc": o.asc}));
+            }
+            v
+        }
+    };
+    let offset = match &q.offset {
+        None => Value::Null,
+        Some(Offset { value, rows: OffsetRows::None }) => tree(value),
+        Some(_) => return None,
+    };
+    Some(json!({"body": q_setexpr(&q.body)?, "order_by": order_by, "limit": q.limit.as_ref().map(tree), "offset": offset}))
+}
+
+fn q_tree(q: &Query) -> Value {
+    q_query(q).unwrap_or_else(|| json!("out_of_fragment"))
+}
+
+fn lex_view(d: &dyn Dialect, sql: &str) -> Result<(Vec<Token>, Vec<Value>, Vec<&'static str>), String> {
+    let toks = Tokenizer::new(d, sql).tokenize().map_err(|e| e.to_string())?;
+    let toks: Vec<Token> = toks.into_iter().filter(|t| !matches!(t, Token::Whitespace(_))).collect();
+    let view = toks.iter().map(tok_view).collect();
+    let kinds = toks.iter().map(tok_kind).collect();
+    Ok((toks, view, kinds))
+}
+
+fn parse_query_rest(d: &dyn Dialect, toks: Vec<Token>) -> Result<(Result<Query, sqlparser::parser::ParserError>, usize), String> {
+    let n = toks.len();
+    std::panic::catch_unwind(std::panic::AssertUnwindSafe(|| {
+        let mut p = Parser::new(d).with_tokens(toks);
+        let r = p.parse_query();
+        let mut rest = 0usize;
+        while p.next_token().token != Token::EOF && rest <= n {
+            rest += 1;
+        }
+        (r, rest)
+    }))
+    .map_err(panic_msg)
+}
+
+fn run_query(d: &dyn Dialect, sql: &str) -> Value {
+    let (toks, view, kinds) = match lex_view(d, sql) {
+        Ok(x) => x,
+        Err(e) => return json!({"tokens": Value::Null, "result": {"tokerr": e}}),
+    };
+    let result = match parse_query_rest(d, toks) {
+        Err(p) => json!({"panic": p}),
+        Ok((Err(e), _)) => json!({"err": e.to_string()}),
+        Ok((Ok(q), rest)) => {
+            let text = q.to_string();
+            let again = match lex_view(d, &text) {
+                Err(e) => json!({"tokerr": e}),
+                Ok((t2, v2, k2)) => match parse_query_rest(d, t2) {
+                    Err(p) => json!({"ptokens": v2, "pkind": k2, "panic": p}),
+                    Ok((Err(e), _)) => json!({"ptokens": v2, "pkind": k2, "err": e.to_string()}),
+                    Ok((Ok(q2), rest2)) => json!({"ptokens": v2, "pkind": k2, "same": q2 == q, "rest": rest2,
+                        "text2": q2.to_string()}),
+                },
+            };
+            json!({"ok": q_tree(&q), "rest": rest, "text": text, "again": again})
+        }
+    };
+    json!({"tokens": view, "tkind": kinds, "result": result})
+}
+
+fn probe_query(d: &dyn Dialect, sql: &str) -> Value {
+    let r = std::panic::catch_unwind(std::panic::AssertUnwindSafe(|| {
+        let mut p = Parser::new(d).try_with_sql(sql)?;
+        let q = p.parse_query()?;
+        let at_end = p.peek_token().token == Token::EOF;
+        Ok::<_, sqlparser::parser::ParserError>((q, at_end))
+    }));
+    match r {
+        Ok(Ok((q, at_end))) => {
+            let (sel, from0) = match &*q.body {
+                SetExpr::Select(s) => (Some(s.clone()), s.from.first().map(|t| t.relation.clone())),
+                _ => (None, None),
+            };
+            json!({"ok": true, "at_end": at_end, "text": q.to_string(),
+                "limit_by": !q.limit_by.is_empty(), "offset": q.offset.is_some(),
+                "value_table_mode": sel.as_ref().map(|s| s.value_table_mode.is_some()),
+                "wild_opts": sel.as_ref().map(|s| matches!(s.projection.first(), Some(SelectItem::Wildcard(o)) if *o != WildcardAdditionalOptions::default())),
+                "from_kind": from0.map(|f| { let s = format!("{:?}", f); s.split(|c: char| !c.is_alphanumeric()).next().unwrap_or("").to_string() }),
+                "group_by": sel.as_ref().map(|s| format!("{}", s.group_by)),
+            })
+        }
+        Ok(Err(e)) => json!({"ok": false, "err": e.to_string()}),
+        Err(e) => json!({"ok": false, "panic": panic_msg(e)}),
+    }
+}
+
+fn qtables() -> Value {
+    let names = |l: &[Keyword]| l.iter().map(|k| format!("{:?}", k)).collect::<Vec<_>>();
+    let mut out = serde_json::Map::new();
+    for name in DIALECT_NAMES {
+        let d = dialect_by_name(name);
+        let d: &dyn Dialect = &*d;
+        out.insert(name.to_string(), json!({
+            "flags": {
+                "limit_comma": d.supports_limit_comma(),
+                "proj_trailing": d.supports_projection_trailing_commas(),
+                "trailing": d.supports_trailing_commas(),
+                "wild_except": d.supports_select_wildcard_except(),
+                "group_by_expr": d.supports_group_by_expr(),
+            },
+            "probes": {
+                "limit_comma": probe_query(d, "SELECT x1 LIMIT 1, 2"),
+                "limit_by": probe_query(d, "SELECT x1 LIMIT 1 BY x2"),
+                "proj_trailing": probe_query(d, "SELECT x1, FROM x2"),
+                "trailing": probe_query(d, "SELECT x1 GROUP BY x2, HAVING x3"),
+                "wild_except": probe_query(d, "SELECT * EXCEPT (x1) FROM x2"),
+                "wild_ilike": probe_query(d, "SELECT * ILIKE 's1' FROM x2"),
+                "select_as": probe_query(d, "SELECT AS VALUE x1 FROM x2"),
+                "unnest_table": probe_query(d, "SELECT x1 FROM UNNEST(x2)"),
+                "hyphen_table": probe_query(d, "SELECT x1 FROM x2-x3"),
+                "group_by_expr": probe_query(d, "SELECT x1 GROUP BY ()"),
+                "paren_tables": probe_query(d, "SELECT x1 FROM (x2)"),
+            },
+        }));
+    }
+    json!({"reserved_for_column_alias": names(sqlparser::keywords::RESERVED_FOR_COLUMN_ALIAS),
+           "reserved_for_table_alias": names(sqlparser::keywords::RESERVED_FOR_TABLE_ALIAS),
+           "dialects": out})
+}
+
 fn main() {
     quiet_panics();
     let args: Vec<String> = std::env::args().collect();
@@ -385,8 +625,13 @@ fn main() {
             let d = dialect_by_name(c["dialect"].as_str().unwrap());
             run_setop(&*d, c["sql"].as_str().unwrap())
         }),
+        "qtables" => println!("{}", qtables()),
+        "query" => for_each_case(|c| {
+            let d = dialect_by_name(c["dialect"].as_str().unwrap());
+            run_query(&*d, c["sql"].as_str().unwrap())
+        }),
         _ => {
-            eprintln!("usage: prattx tables|expr|setop");
+            eprintln!("usage: prattx tables|expr|setop|qtables|query");
             std::process::exit(2);
         }
     }
